@@ -77,6 +77,12 @@ func init() {
 		e.assertPC(And(IGe(t, IntConst(new(bigInt).Neg(pow2(63)))), ILt(t, IntConst(pow2(63)))))
 		return []Value{t}
 	}
+	// an unsigned 64-bit quantity as an integer shadow (gas): 0 <= x < 2^64
+	intrinsics["verifSymQtyU64"] = func(e *Exec, fn *ssa.Function, a []Value) []Value {
+		t := e.fresh(argStr(e, a[0]), IntSort)
+		e.assertPC(And(IGe(t, IntI(0)), ILt(t, IntConst(pow2(64)))))
+		return []Value{t}
+	}
 	intrinsics["verifSymDuration"] = func(e *Exec, fn *ssa.Function, a []Value) []Value {
 		t := e.fresh(argStr(e, a[0]), IntSort)
 		e.assertPC(And(IGe(t, IntConst(new(bigInt).Neg(pow2(63)))), ILt(t, IntConst(pow2(63)))))
